@@ -483,6 +483,11 @@ def _dsdl_of(u: dict, where: str) -> str:
 
 
 # ------------------------------------------------------------------------------------------------------------- the check
+# set by run() before the workers are forked: every scratch tree lives below it, so that nothing is left behind even when the
+# pool is torn down while a worker is in the middle of a case
+_SCRATCH_PARENT: typing.Optional[str] = None
+
+
 def check_universe(case: dict) -> dict:
     """
     Returns {"fails": [(signature, what)], "pages": [(key, nontrivial, classes, sample)], "classes": {..}, "obs": {..}}.
@@ -493,7 +498,7 @@ def check_universe(case: dict) -> dict:
     pages_out = []
     classes: typing.Counter[str] = collections.Counter()
     obs: typing.Counter[str] = collections.Counter()
-    base = pathlib.Path(tempfile.mkdtemp(prefix="vf-c20-"))
+    base = pathlib.Path(tempfile.mkdtemp(prefix="vf-c20-", dir=_SCRATCH_PARENT))
     try:
         dsdlgen.materialise(u, base / "A" / "dsdl")
         docs, consts, types = model_facts(u, base / "A")
@@ -855,16 +860,22 @@ def run(ctx: core.Ctx):
     obs: typing.Counter[str] = collections.Counter()
     import nunavut.cli  # noqa: F401  (import before fork)
 
+    global _SCRATCH_PARENT
     workers = max(1, min(8, (os.cpu_count() or 2)))
     mp = multiprocessing.get_context("fork")
-    with mp.Pool(workers) as pool:
-        for case, r in zip(cases, pool.imap(_work, cases, chunksize=1)):
-            _merge(ctx, case, r, obs)
-        if not os.environ.get("VF_NO_SHRINK"):
-            todo = [(ent["replay"], sig) for sig, ent in ctx.failures.items() if not ctx.is_known(sig)][:8]
-            for sig, c, w in pool.imap(_work_min, todo, chunksize=1):
-                if w is not None:
-                    ctx.set_min_replay(sig, w, c)
+    _SCRATCH_PARENT = tempfile.mkdtemp(prefix="vf-c20-run-")
+    try:
+        with mp.Pool(workers) as pool:
+            for case, r in zip(cases, pool.imap(_work, cases, chunksize=1)):
+                _merge(ctx, case, r, obs)
+            if not os.environ.get("VF_NO_SHRINK"):
+                todo = [(ent["replay"], sig) for sig, ent in ctx.failures.items() if not ctx.is_known(sig)][:8]
+                for sig, c, w in pool.imap(_work_min, todo, chunksize=1):
+                    if w is not None:
+                        ctx.set_min_replay(sig, w, c)
+    finally:
+        shutil.rmtree(_SCRATCH_PARENT, ignore_errors=True)
+        _SCRATCH_PARENT = None
     ctx.extra["observations"] = dict(sorted(obs.items()))
     ctx.extra["universes"] = len(cases)
     ctx.require("doc.lt", 10)
